@@ -157,13 +157,17 @@ class WalkUnit(ApiUnit):
                 ended = z3.Not(ag.has_succ(po)) if pend is None else z3.Or(pend, z3.Not(ag.has_succ(po)))
                 o = z3.If(ended, po, ag.succ(po))
                 v = ctx.fresh_xval("answer_r%d_c%d" % (j, i))
+                if getattr(self, "all_live", False):
+                    # LARGE shapes: every requested column still has an instance inside its root (one path per unit)
+                    ctx.assume(lift_bool(z3.And(z3.Not(ended), z3.Or(*[z3.And(rt.oid.below(po, r.e), rt.oid.below(o, r.e))
+                                                                      for r in self.roots]))))
                 ctx.assume(lift_bool(z3.If(ended, rt.f_cls(v.e) == self.eom_id, v.e == ag.val(o))))
                 row.append((o, ended, v))
                 prev[i] = (o, ended)
             cells.extend(row)
         total = k * m
         cut = total
-        if pdu.cls.name == "BulkGetRequest" and total > 1:
+        if pdu.cls.name == "BulkGetRequest" and total > 1 and not getattr(self, "all_live", False):
             cvar = ctx.fresh_int("agent_cut")
             ctx.assume(And(cvar >= 1, cvar <= total))
             for c in range(1, total + 1):
@@ -399,6 +403,9 @@ class WalkUnit(ApiUnit):
         return "returns"
 
 
+LARGE_ROOTS = 6
+
+
 def perms(n, tier):
     return list(itertools.permutations(range(n)))
 
@@ -420,11 +427,26 @@ def walk_units(prop, n, m):
     return us
 
 
+def large_walk_units(prop, n, m, tier="quick"):
+    """LARGE shapes: many roots, every column alive and answered inside its root, complete responses - the first request and
+    one loop step with every root active (a split of the roots over several requests or walks acts only there)"""
+    us = [WalkUnit(n, tuple(range(n)), m, prop, "prologue")]
+    if tier == "thorough":
+        us.append(WalkUnit(2 * n, tuple(range(2 * n)), m, prop, "prologue"))
+        # (the step forks on "was this answer delivered before" per root: 2^n paths)
+        us.append(WalkUnit(n, tuple(range(n)), m, prop, "step", tuple(range(n))))
+    for u in us:
+        u.all_live = True
+        u.name = u.name[:-1] + ", every column answered inside its root]"
+    return us
+
+
 def units_c01(tier):
     us = []
     nmax = 3 if tier == "thorough" else 2
     for n in range(1, nmax + 1):
         us.extend(walk_units("C01", n, None))
+    us.extend(large_walk_units("C01", LARGE_ROOTS, None, tier))
     return us
 
 
@@ -435,6 +457,7 @@ def units_c02(tier):
         shapes += [(1, 3), (2, 3), (3, 1), (3, 2)]
     for n, m in shapes:
         us.extend(walk_units("C02", n, m))
+    us.extend(large_walk_units("C02", LARGE_ROOTS, 1 if tier == "quick" else 2, tier))
     return us
 
 
